@@ -321,6 +321,24 @@ fn main() {
                 Err(_) => println!("FAIL volume thread {ti} panicked") } }
             println!("VOLUME {total} {} {} {}", sec.len(), tag.len(), trap.len());
         }
+        // poison N: a thread PANICS while it holds the generator's guard (obtained through the public accessor). Afterwards the
+        // instance may refuse to work (the unchanged crate panics on the poisoned lock), but whatever it still hands out must be
+        // fresh: N rounds of every kind of call, refused / panicking calls are counted, the values produced are compared
+        Some("poison") => {
+            std::panic::set_hook(Box::new(|_| {}));
+            let n: usize = a[2].parse().unwrap();
+            for inst in 0..2 {
+                let cc = Arc::new(Covercrypt::default());
+                let (msk0, mpk) = setup(&cc);
+                let c2 = cc.clone();
+                let _ = std::thread::spawn(move || { let _g = c2.rng(); panic!("worker dies while holding the generator") }).join();
+                let msk = Mutex::new(msk0); let mut refused = 0usize; let mut produced = 0usize;
+                for _ in 0..n { for kind in [0usize, 1, 2, 3, 4] {
+                    let r = std::panic::catch_unwind(std::panic::AssertUnwindSafe(|| { let mut o = vec![]; let r = vals_of_call(&cc, &msk, &mpk, kind, &mut o); (o, r) }));
+                    match r { Ok((o, Ok(()))) => { produced += 1; for l in o { println!("{l}"); } } _ => refused += 1 } } }
+                println!("OK thread {inst}.0 finished (poisoned instance: {produced} calls produced values, {refused} refused)");
+            }
+        }
         _ => println!("usage"),
     }
 }
